@@ -45,9 +45,23 @@ def c03(tier, seed, replay):
                 "solution, the result is feasible and optimal, None iff infeasible", tier, seed, replay)
 
 
+def _c04_calls(rep, tier, seed):
+    """A propagator that loops inside ONE call never returns to the engine: the call corpus (small-scope families,
+    random and large-arity calls) is executed under a watchdog whose nomination is confirmed by a line-count cap."""
+    import calls
+    r = calls.run_corpus(tier, seed, ("C04:",), jit=False, nbig=3000 if tier == "quick" else 60000)
+    for rec, clause in r["failures"]:
+        case = calls.case_key(rec)
+        case["clause"] = clause
+        rep.fail(case, f"{clause} on {rec['alg']} params={rec['params'][:20]} box={rec['inbox'][:10]} (executed lines: {rec.get('lines')})")
+    rep.add(states=r["states"], transitions=r["transitions"], traces_validated_against_impl=r["judged"])
+    rep.cov["propagator_calls_under_watchdog"] = r["records"]
+
+
 def c04(tier, seed, replay):
     return _run("C04", ("C04:",), "every pass executes at most PassBound constraints, no call hangs (line-count "
-                "confirmed), no heuristic answers 'nothing to branch on' while the box is not ground", tier, seed, replay)
+                "confirmed), no heuristic answers 'nothing to branch on' while the box is not ground", tier, seed, replay,
+                extra=_c04_calls)
 
 
 def c08(tier, seed, replay):
